@@ -139,8 +139,37 @@ def closer_identity(f, org, cb):
 
 def s2(rep, w):
     r = rep.rule('S2', 'scope exit emits CloseUpvalue for captured locals and Pop for the others; capture marks the declaring local', floor=4)
-    f = w.require_fn(P + 'emit_scope_end', 'C06')
+    # the code that chooses how a local leaves the stack is found by what it does - it branches on a local's is_captured flag -
+    # wherever a refactoring put it (emit_scope_end today; a helper, or a closure handed to an iterator adapter, tomorrow)
+    choosers = scope_exit_choosers(w)
+    if not choosers:
+        raise Broken('C06', 'anchor', 'no function of the compiler branches on Local.is_captured (the scope-exit emitter was not found)')
+    for f in choosers:
+        s2_chooser(rep, w, r, f)
+    s2_capture(rep, w, r)
+
+
+def scope_exit_choosers(w):
+    out = []
+    for f in sorted(w.yarel.fns.values(), key=lambda x: x.path):
+        if not f.file.endswith('compiler.rs'):
+            continue
+        org = None
+        for bi in f.normal_blocks():
+            t = f.blocks[bi]['t']
+            if t['t'] != 'switch':
+                continue
+            if org is None:
+                org = origins(f)
+            if 'is_captured' in operand_fields(f, org, t['d']):
+                out.append(f)
+                break
+    return out
+
+
+def s2_chooser(rep, w, r, f):
     org = origins(f)
+    fname = f.name if f.kind != 'Closure' else f.path.replace(P, '')
     # the two classes of instruction a local can leave the stack by, taken from the VM's own handlers: those that close the
     # upvalues pointing at the slot, and those that only drop slots (Pop, or a counted variant of it)
     import c07
@@ -188,16 +217,30 @@ def s2(rep, w):
             opn, _ = emit.operand_opcode(w, f, bi, t['args'][1])
             if opn is not None and not any(b2 == bi for b2, _ in producers):
                 producers.append((bi, opn))
+    # `OpCode::X as u8` on a constant is folded to the number: inside an arm of the is_captured test such a byte is the opcode chosen
+    optab = emit.opcode_table(w)
+    for bi in f.normal_blocks():
+        if not any(e in dom.get(bi, ()) for e in edges['close'] | edges['drop']):
+            continue
+        for s_ in f.blocks[bi]['s']:
+            rr = s_.get('r', {})
+            k = op_const(rr.get('o', {}) or {}) if rr.get('rv') in ('cast', 'use') else None
+            if k is not None and isinstance(k.get('v'), int) and f.crate.tstr(k['t']) in ('u8', 'chunk::OpCode', 'yarel::chunk::OpCode') and k['v'] in optab:
+                if not any(b2 == bi for b2, _ in producers):
+                    producers.append((bi, optab[k['v']]))
     other = sorted({o for _, o in producers if o not in closing and o not in dropping})
     r.check(bool(producers) and not other and any(o in closing for _, o in producers) and any(o in dropping for _, o in producers),
-            'emit_scope_end: is_captured ? CloseUpvalue : Pop',
-            'the opcode chosen for a local leaving scope no longer follows its is_captured flag (captured -> %s, otherwise %s): emit_scope_end produces %s' %
-            (sorted(closing), sorted(dropping), sorted({o for _, o in producers})), f.loc())
+            '%s: is_captured ? CloseUpvalue : Pop' % fname,
+            'the opcode chosen for a local leaving scope no longer follows its is_captured flag (captured -> %s, otherwise %s): %s produces %s' %
+            (sorted(closing), sorted(dropping), fname, sorted({o for _, o in producers})), f.loc())
     bad = [(bi, opn) for (bi, opn) in producers if (opn in closing and not any(e in dom.get(bi, ()) for e in edges['close'])) or
            (opn in dropping and not any(e in dom.get(bi, ()) for e in edges['drop']))]
-    r.check(bool(producers) and not bad, 'emit_scope_end: every Pop / CloseUpvalue is chosen under the local\'s is_captured test',
-            'emit_scope_end produces %s without consulting is_captured on that path (e.g. the break / continue path): a captured loop-body variable is popped while its '
-            'upvalue stays open, and closures read whatever reuses the slot' % sorted({o for _, o in bad}), f.loc())
+    r.check(bool(producers) and not bad, '%s: every Pop / CloseUpvalue is chosen under the local\'s is_captured test' % fname,
+            '%s produces %s without consulting is_captured on that path (e.g. the break / continue path): a captured loop-body variable is popped while its '
+            'upvalue stays open, and closures read whatever reuses the slot' % (fname, sorted({o for _, o in bad})), f.loc())
+
+
+def s2_capture(rep, w, r):
     # who may write Local.is_captured
     ws = {}
     for (g, sp, kind) in c01.field_writers(w, 'yarel::compiler::Local', 'is_captured'):
